@@ -65,6 +65,16 @@ Definition try_inc_pre (bs : list block) (n : N) : Prop :=
 
 Definition set_cap_pre (n : N) : Prop := n <> 0.
 
+(* AtomicBucket::with_capacity(cap) (NOT translated: its shape is checked by lower_atomic_bucket.py, see
+   AtomicBucketGen.gen_ab_layout).  AtomicBucket::layout builds   next: AtomicPtr (8 bytes, align 8), len: usize (8),
+   capacity: NonZeroUsize (8)  extended by the data layout Layout::from_size_align(cap, 1) (checked: Err iff
+   cap > isize::MAX) and padded to align 8; every Layout::extend re-checks "size rounded up to the alignment
+   <= isize::MAX".  So a layout exists iff 24 + cap <= isize::MAX - 7, i.e. iff cap <= isize::MAX - 31; every failure
+   is mapped to FailedAllocation.  (64-bit target: three 8-byte header fields.) *)
+Definition ab_cap_max : N := isize_max - 31.
+Definition ab_wc_spec (id cap : N) : res block :=
+  if cap <=? ab_cap_max then Ok (fresh_block id cap) else Err FailedAllocation.
+
 (* ---------------- interpreter ---------------- *)
 
 Inductive lbkval := LbOwned (b : block) | LbFocus | LbMoved.
@@ -161,9 +171,11 @@ Fixpoint lexec (s : str) (p : lstmt) (st : lstate) : loutcome :=
   | LNewBucketQ x z =>
       match eval_nz cx z with
       | Some (inl cap, q) =>
-          LNormal (mkL (mkArena (blocks a) (bucket_cap a) (usage a) (limit a) (next_bid a + 1))
-                       nums ((x, LbOwned (fresh_block (next_bid a) cap)) :: bks) ptrs refs fo
-                       (ok /\ q /\ wc_pre cap))
+          match ab_wc_spec (next_bid a) cap with
+          | Ok b => LNormal (mkL (mkArena (blocks a) (bucket_cap a) (usage a) (limit a) (next_bid a + 1))
+                                 nums ((x, LbOwned b) :: bks) ptrs refs fo (ok /\ q /\ wc_pre cap))
+          | Err k => LRet (final_arena a fo) (RVErr k) (ok /\ q /\ wc_pre cap)
+          end
       | Some (inr k, q) => LRet (final_arena a fo) (RVErr k) (ok /\ q)
       | None => LStuck end
   | LPushSlice r x =>
@@ -233,13 +245,16 @@ Definition run_lfun (fd : lfundef) (a : arena) (s : str) (args : list N) : optio
   | None => (None, False)
   end.
 
-Definition run_lnew (nd : lnewdef) (args : list N) : option arena * Prop :=
+Definition run_lnew (nd : lnewdef) (args : list N) : option (res arena) * Prop :=
   match zip_args (ln_params nd) args with
   | Some nums =>
       let cx := plain_cx nums in
       match eval_nz cx (ln_first nd), eval cx (ln_cap nd), eval cx (ln_usage nd), eval cx (ln_limit nd) with
       | Some (inl c0, q0), Some (c, q1), Some (u, q2), Some (l, q3) =>
-          (Some (mkArena [fresh_block 0 c0] c u l 1), q0 /\ wc_pre c0 /\ q1 /\ q2 /\ q3)
+          match ab_wc_spec 0 c0 with
+          | Ok b => (Some (Ok (mkArena [b] c u l 1)), q0 /\ wc_pre c0 /\ q1 /\ q2 /\ q3)
+          | Err k => (Some (Err k), q0 /\ wc_pre c0)
+          end
       | _, _, _, _ => (None, False)
       end
   | None => (None, False)
@@ -273,6 +288,9 @@ Proof.
     subst t. repeat split; auto. now right.
 Qed.
 
-(* the lock-free arena's domain: as arena_typed, and every bucket's size is a legal Layout size *)
-Definition lf_typed (a : arena) : Prop :=
-  arena_typed a /\ Forall (fun b => bcap b <= isize_max) (blocks a).
+(* a bucket is not larger than the booked memory (used for "len + additional does not overflow") *)
+Lemma bcap_le_sum (l : list block) b : In b l -> bcap b <= sum_N (map bcap l).
+Proof.
+  induction l as [|x l IH]; [intros []|]. unfold sum_N in *. cbn [map fold_right].
+  intros [->|H]; [lia|]. specialize (IH H). lia.
+Qed.
